@@ -71,6 +71,9 @@ func (t *TransactionManager) Confirm(id string) error {
 	if err != nil {
 		return err
 	}
+	if !t.transaction.isApplied() {
+		return fmt.Errorf("transaction %s is still being processed", id)
+	}
 	err = t.transaction.Confirm()
 	if err != nil {
 		return err
@@ -90,6 +93,9 @@ func (t *TransactionManager) Cancel(ctx context.Context, id string) error {
 	_, err := t.GetTransaction(id)
 	if err != nil {
 		return err
+	}
+	if !t.transaction.isApplied() {
+		return fmt.Errorf("transaction %s is still being processed", id)
 	}
 	rollbacktransAction := t.transaction.GetRollbackTransaction()
 
